@@ -46,7 +46,10 @@ InputPool == <<
   [k |-> "unit"],
   U("u8", 21),
   [k |-> "struct", name |-> S("Bad"), fields |-> << F("age", [k |-> "u128", n |-> ZPow2(127)]) >>],
-  [k |-> "map", kv |-> << <<U("u8", 1), U("u8", 2)>> >>] >>
+  [k |-> "map", kv |-> << <<U("u8", 1), U("u8", 2)>> >>],
+  \* a key emitted twice (flattened extras shadowing a named field): the later entry is the data
+  [k |-> "map", kv |-> << <<Str("age"), U("u8", 10)>>, <<Str("name"), Str("Bob")>>, <<Str("tags"), [k |-> "seq", xs |-> <<Str("x")>>]>>, <<Str("age"), U("u8", 40)>>, <<Str("name"), Str("Rob")>> >>],
+  [k |-> "mapkv", kv |-> << <<Str("name"), Str("bob")>>, <<Str("age"), U("u8", 40)>>, <<Str("address"), [k |-> "mapkv", kv |-> << <<Str("zip"), [k |-> "seq", xs |-> <<U("u8", 1)>>]>>, <<Str("city"), Str("Utrecht")>>, <<Str("zip"), [k |-> "seq", xs |-> <<[k |-> "none"]>>]>> >>]>>, <<Str("age"), U("u8", 10)>> >>] >>
 
 Funcs == << [name |-> S("double"), cacheable |-> TRUE, suspend |-> 0, script |-> <<[r |-> "double"]>>] >>
 Syms == << <<S("home"), VStr(S("Utrecht"))>> >>
